@@ -660,9 +660,24 @@ class Rewriter:
         b = self.sub('R22:model-type', r'(?<![\w:])Vec \{', 'VecM {', b)
         b = self.sub('R1:phantom', r'\b\w+\s*:\s*PhantomData\s*,?', '', b)
         # `self.for_each(drop)` is by definition: call next() until None, dropping every item
-        extra = ', Ghost(*source_vec)' if c.get('drain_drop') else ''
+        extra = ', Ghost(*source_vec)' if c.get('drain_drop') else (', pl, vec' if c.get('dfilter') else '')
         b = self.sub('R19:for_each-drop', r'\bself\.for_each\(drop\);',
                      'loop {\n            match self.next(hs%s) {\n                Some(x__) => {\n                    elem_drop(ds, x__);\n                }\n                None => { break; }\n            }\n        }' % extra, b)
+        if c.get('dfilter'):
+            # R31: DrainFilter over the heap model: the borrowed vector is the explicit parameter `vec`, the user predicate a callback shim whose
+            # results are appended to a ghost log, slice indexing `&v[i]` an element address of the slice
+            b = self.sub('R31:vec-backref', r'\bself\.vec\.', 'vec.', b)
+            b = self.sub('R31:callback', r'\(self\.pred\)\(&mut v\[(\w+)\]\)', r'cb_pred(pl, hs, v.at(\1))', b)
+            b = self.sub('R31:slot-addr', r'let (\w+): \*(?:const|mut) T = &(?:mut )?v\[([^\]]+)\];', r'let \1 = v.at(\2);', b)
+            b = self.sub('R31:slot-addr', r'&(?:mut )?v\[([^\]]+)\]', r'v.at(\1)', b)
+            b = self.method_to_fn(b, 'sub', 'p_sub', 'R31:ptr-sub', extra_first='hs')
+            b = self.sub('R19:for_each-drop', r'\bself\.for_each\(drop\);',
+                         'loop {\n            match self.next(hs, pl, vec) {\n                Some(x__) => {\n                    elem_drop(ds, x__);\n                }\n                None => { break; }\n            }\n        };', b)
+            # constructor: the borrowed vector and the predicate are not fields of the model; two ghost fields record the original contents
+            b = self.sub('R31:ctor', r'(?m)^\s*vec: self,\s*$', '            orig: Ghost(hs.buf(self.buf.b@).subrange(0, old_len as int)), base: Ghost(pl.res@.len()),', b)
+            b = self.sub('R31:ctor', r'(?m)^\s*pred: filter,\s*$', '', b)
+            b = self.sub('R31:model-type', r'(?<![\w:])DrainFilter \{', 'DrainFilterM {', b)
+            b = self.sub('R31:retain', r'\bself\.drain_filter\(\|x\| !f\(x\)\);', '{ let mut df__ = self.drain_filter(hs, pl); df__.drop(hs, ds, pl, self); }', b)
         if c.get('splice_drop'):
             # R30: Splice::drop.  `self.drain.by_ref().for_each(drop)` is by definition: next() until None, dropping every item; the
             # Drain's back-pointer to its Vec is the explicit parameter `vec`; `by_ref()` hands the callee the remaining items; the field
